@@ -24,7 +24,7 @@ from ..gutil import maxabs
 LEVEL = "exploration"
 RULE = ("position_control / se23_position_control: errors {0,(0.1,0,0),(1,-2,3),(-40,25,7)} x velocity errors x feed-forward x 6 headings (camera quaternion with roll/pitch) "
         "x trim {0, m g} x z_i {0,+-1}, + degenerate family: demanded force s*x_C for s in {0,+-1,+-1e-4, both neighbours of the harvested norm guard}, off-axis angles on both "
-        "sides of the harvested |yB| guard; flatness maps: accelerations incl. free fall and thrust parallel to heading x jerk x snap x heading; helpers on an Euler lattice. "
+        "sides of the harvested |yB| guard; flatness maps: accelerations incl. free fall and thrust parallel to heading x jerk x snap x heading; helpers on an Euler lattice; cameras harvested along attitude rays (pitch -90..90 deg with roll, roll and pitch growing together from 0, yaw and roll through a whole turn) and thrust directions harvested along 4 great circles. "
         "non-trivial = non-zero demanded force; distinct by raw input bytes")
 ASSUMPTIONS = ["documented law: F = sat_{0.3 m g}(-kp_pos e_p - kp_vel e_v + m a_ff) + (trim + ki_z z_i) z_W with the module constants; yaw of the camera quaternion by the textbook map",
                "the returned yaw rate and angular acceleration of the flatness maps are not judged (the property promises roll/pitch rates and Euler's equation only)"]
